@@ -72,14 +72,20 @@ Definition carried := extract.
 (* the sender, on headers `pre` the outgoing context / request / invocation already holds:
    ClientTransactionInterceptor REPLACES the outgoing metadata by {TX_XID: xid};
    an HTTP caller SETS the header (all values under the canonical key go);
-   dubboTransactionFilter.Invoke SETS the attachments SEATA_XID and TX_XID *)
+   dubboTransactionFilter.Invoke SETS the attachments SEATA_XID and TX_XID.
+   With xid = [] the sender runs without a transaction (none, or suspended): gRPC still replaces
+   the metadata by {TX_XID: ""}, the HTTP caller sets an empty header *)
 Definition inject (c : carrier) (xid : bytes) (pre : headers) : headers :=
   match c with
   | Grpc => [(k_TX_XID, AStr xid)]
   | Gin => (k_TX_XID, AStr xid) ::
            filter (fun kv => negb (bytes_eqb (canon (fst kv)) (canon k_TX_XID))) pre
-  | Dubbo => (k_SEATA_XID, AStr xid) :: (k_TX_XID, AStr xid) ::
+  | Dubbo =>
+      match xid with
+      | [] => pre      (* no transaction bound: the filter leaves the attachments as they are *)
+      | _ => (k_SEATA_XID, AStr xid) :: (k_TX_XID, AStr xid) ::
              filter (fun kv => negb (bytes_eqb (fst kv) k_SEATA_XID || bytes_eqb (fst kv) k_TX_XID)) pre
+      end
   end.
 
 (* key spellings under which a receiver finds the xid *)
